@@ -219,8 +219,25 @@ def build_data(spec: dict):
                                      masked_U=masked, slm_end_time=slm_end)
 
 
+SOLVER_FORMS = ("enum", "str", "repr", "deepcopy", "rebuilt")
+
+
+def solver_value(cfg) -> str:
+    """The *value* of `config.solver` (`Solver` is a `str` enum; the option is stored as given)."""
+    sv = cfg.solver
+    return str(getattr(sv, "value", sv))
+
+
 def build_config(spec: dict):
-    """spec: backend, solver, noise (NoiseModel spec), obs (list[(name, suffix)]), reorder."""
+    """spec: backend, solver, noise (NoiseModel spec), obs (list[(name, suffix)]), reorder, prefer,
+    solver_form = how the solver is requested:
+      enum     – the member `Solver.DMRG` / `Solver.TDVP`
+      str      – the documented plain string "dmrg" / "tdvp"
+      repr     – config round-tripped through `to_abstract_repr` / `from_abstract_repr` (→ a str)
+      deepcopy – `copy.deepcopy(config)`
+      rebuilt  – `type(config)(**deepcopy(config._backend_options))` (what `MPSBackendImpl.__getstate__`
+                 pickles into an autosave file)."""
+    import copy
     from emu_mps.solver import Solver
     kw = dict(observables=observables(spec.get("obs", [["Occupation", None]])),
               noise_model=noise_model(spec.get("noise", {})))
@@ -228,9 +245,19 @@ def build_config(spec: dict):
         kw["prefer_device_noise_model"] = True
     if spec["backend"] == "sv":
         return compat.sv_config(**kw)
-    return compat.mps_config(solver=Solver.DMRG if spec["solver"] == "dmrg" else Solver.TDVP,
-                             optimize_qubit_ordering=bool(spec.get("reorder", False)),
-                             precision=spec.get("precision", 1e-5), **kw)
+    form = spec.get("solver_form", "enum")
+    member = Solver.DMRG if spec["solver"] == "dmrg" else Solver.TDVP
+    cfg = compat.mps_config(solver=spec["solver"] if form == "str" else member,
+                            optimize_qubit_ordering=bool(spec.get("reorder", False)),
+                            precision=spec.get("precision", 1e-5), **kw)
+    if form == "repr":
+        cfg = type(cfg).from_abstract_repr(cfg.to_abstract_repr())
+    elif form == "deepcopy":
+        cfg = copy.deepcopy(cfg)
+    elif form == "rebuilt":
+        cfg = type(cfg)(**copy.deepcopy(cfg._backend_options))
+    assert solver_value(cfg) == spec["solver"]
+    return cfg
 
 
 def features(backend: str, data, cfg, sv_solver: str = "tdvp") -> dict:
@@ -240,7 +267,7 @@ def features(backend: str, data, cfg, sv_solver: str = "tdvp") -> dict:
     good = sum(1 for b in data.bad_atoms if not b) if data.state_prep_error > 0.0 else n
     solver = sv_solver
     if backend == "mps":
-        solver = "dmrg" if cfg.solver.name == "DMRG" else "tdvp"
+        solver = "dmrg" if solver_value(cfg) == "dmrg" else "tdvp"
     import torch
     tt = data.target_times
     mats = [data.interaction_matrix(0.5 * (tt[k] + tt[k + 1])) for k in range(len(tt) - 1)]
@@ -248,7 +275,8 @@ def features(backend: str, data, cfg, sv_solver: str = "tdvp") -> dict:
     changes = [not torch.allclose(mats[k], mats[k + 1], atol=1e-10) for k in range(len(mats) - 1)]
     return dict(backend=backend, ham="rydberg" if data.hamiltonian_type.name == "Rydberg" else "xy",
                 dim=len(data.eigenstates), op_dims=[int(o.shape[0]) for o in data.lindblad_ops],
-                n=n, good=good, solver=solver, cfg_noise=cfg.noise_model.noise_types != (), changes=changes)
+                n=n, good=good, solver=solver, cfg_noise=cfg.noise_model.noise_types != (), changes=changes,
+                form=("member" if backend == "sv" or type(cfg.solver).__name__ == "Solver" else "string"))
 
 
 def seq_line(feat: dict, variant="repaired") -> str:
@@ -287,8 +315,16 @@ def recording(info: dict):
       * emu-sv: `RydbergHamiltonian` / `RydbergLindbladian` constructions in `emu_sv.time_evolution`
         (one per step) are recorded as `rydberg2`."""
     import emu_mps.hamiltonian as mh
+    import emu_mps.mps_backend as mb
     import emu_mps.mps_backend_impl as mbi
     import emu_sv.time_evolution as ste
+    real_create = mb.create_impl
+
+    def rec_create(*a, **kw):
+        impl = real_create(*a, **kw)
+        info["impl"] = type(impl).__name__
+        return impl
+
     info.setdefault("built", [])
     info.setdefault("steps", [])
     info.setdefault("make_H", [])
@@ -326,6 +362,7 @@ def recording(info: dict):
     with mock.patch.object(mh, "RydbergHamiltonianMPOFactors", fac("rydberg", real["ryd"])), \
             mock.patch.object(mh, "XYHamiltonianMPOFactors", fac("xy", real["xy"])), \
             mock.patch.object(mbi, "make_H", rec_make_H), mock.patch.object(mbi, "update_H", rec_update_H), \
+            mock.patch.object(mb, "create_impl", rec_create), \
             mock.patch.object(ste, "RydbergHamiltonian", sv(real["svh"])), \
             mock.patch.object(ste, "RydbergLindbladian", sv(real["svl"])), \
             contextlib.redirect_stdout(io.StringIO()):          # the XY MPO builder prints a banner
@@ -378,8 +415,12 @@ def oracle_run(backend: str, data, cfg, outcome: str, info: dict):
     if dim not in (2, 3):
         return f"{backend} returned Results for a {dim}-level basis", "emulates-unsupported-level-count"
     if backend == "mps":
-        if cfg.solver.name == "DMRG" and (len(data.lindblad_ops) > 0 or cfg.noise_model.noise_types != ()):
-            return (f"DMRG solver returned Results with noise (lindblad_ops={len(data.lindblad_ops)}, "
+        dmrg = solver_value(cfg) == "dmrg"
+        if dmrg and info.get("impl") not in (None, "DMRGBackendImpl"):
+            return (f"solver requested as {cfg.solver!r} (value 'dmrg') but create_impl returned {info['impl']} and "
+                    "Results were returned"), "dmrg-requested-other-impl"
+        if dmrg and (len(data.lindblad_ops) > 0 or cfg.noise_model.noise_types != ()):
+            return (f"DMRG solver (requested as {cfg.solver!r}) returned Results with noise (lindblad_ops={len(data.lindblad_ops)}, "
                     f"config noise_types={cfg.noise_model.noise_types})"), "dmrg-emulates-noise"
     want = f"{'rydberg' if ham == 'Rydberg' else 'xy'}{dim}"
     steps = info.get("steps", [])
@@ -410,9 +451,10 @@ def impl_real(data, cfg) -> str:
                     "DMRGBackendImpl": "dmrg"}.get(type(impl).__name__, "other:" + type(impl).__name__)
 
 
-def impl_line(feat: dict, variant="repaired") -> str:
-    return " ".join(["config.impl", variant, feat["solver"], str(len(feat["op_dims"])),
-                     "1" if feat["cfg_noise"] else "0", str(feat["n"])])
+def impl_line(feat: dict, variant="repaired", test="value") -> str:
+    """`createImplF test form …`: the decision for a solver requested in the form the config stores."""
+    return " ".join(["config.implf", test, feat.get("form", "member"), variant, feat["solver"],
+                     str(len(feat["op_dims"])), "1" if feat["cfg_noise"] else "0", str(feat["n"])])
 
 
 # --------------------------------------------------------------------------- adapter stage
@@ -421,8 +463,15 @@ CHANNELS = {"gr": ["rydberg_global"], "dig": ["raman_global"], "xy": ["mw_global
             "dig,gr": ["rydberg_global", "raman_global"]}
 
 
-def pulser_sequence(bases: str, n: int = 2, dev_noise: dict | None = None):
-    key = (bases, n, json.dumps(dev_noise, sort_keys=True))
+BASIS_CHANNEL = {"gr": "rydberg_global", "dig": "raman_global", "xy": "mw_global"}
+
+
+def pulser_sequence(declared: str, n: int = 2, dev_noise: dict | None = None, pulsed: str | None = None):
+    """A Pulser sequence that declares one channel per basis in `declared` ("gr", "dig,gr", …) and
+    pulses those in `pulsed` (default: all of them); the others only get a delay. Raises whatever
+    Pulser raises when it refuses the combination (XY with anything else)."""
+    pulsed = declared if pulsed is None else pulsed
+    key = (declared, pulsed, n, json.dumps(dev_noise, sort_keys=True))
     if key not in _SEQS:
         import dataclasses
         import pulser
@@ -431,9 +480,15 @@ def pulser_sequence(bases: str, n: int = 2, dev_noise: dict | None = None):
             MockDevice = dataclasses.replace(MockDevice, default_noise_model=noise_model(dev_noise))
         reg = pulser.Register.from_coordinates([[7.0 * i, 0.0] for i in range(n)], prefix="q")
         s = pulser.Sequence(reg, MockDevice)
-        for i, c in enumerate(CHANNELS[bases]):
-            s.declare_channel(f"ch{i}", c)
-            s.add(pulser.Pulse.ConstantPulse(20, 1.0, 0.0, 0.0), f"ch{i}")
+        dl = [b for b in declared.split(",") if b]
+        pl = [b for b in pulsed.split(",") if b]
+        for b in dl:
+            s.declare_channel(b, BASIS_CHANNEL[b])
+        for b in dl:
+            if b in pl:
+                s.add(pulser.Pulse.ConstantPulse(20, 1.0, 0.0, 0.0), b)
+            else:
+                s.delay(20, b)
         _SEQS[key] = s
     return _SEQS[key]
 
@@ -464,11 +519,11 @@ def it_token(it: str) -> str:
     return {"ising": "ising", "XY": "xy"}.get(it, "other")
 
 
-def pipeline_real(backend: str, it: str, dim: int, nmspec: dict, solver: str):
+def pipeline_real(backend: str, it: str, dim: int, nmspec: dict, solver: str, solver_form: str = "enum"):
     """The modelled `run()`: real `PulserData.__init__` (stubbed Pulser basis report), then the
     real back-end on a `SequenceData` carrying the adapter's own Lindblad operators."""
     nm = noise_model(nmspec)
-    cfg = build_config(dict(backend=backend, solver=solver, noise=nmspec))
+    cfg = build_config(dict(backend=backend, solver=solver, noise=nmspec, solver_form=solver_form))
     out, pd = adapter_real(it, dim, nm, cfg)
     if pd is None or not out.startswith("ok"):
         return out, None, cfg, {}
@@ -482,7 +537,7 @@ def pipeline_real(backend: str, it: str, dim: int, nmspec: dict, solver: str):
 
 
 def sequence_real(backend: str, bases: str, nmspec: dict, solver: str, dev_noise: dict | None = None,
-                  prefer: bool = False):
+                  prefer: bool = False, pulsed: str | None = None, solver_form: str = "enum"):
     """A real Pulser sequence through the real `<Backend>(sequence, config=…).run()` — the API the
     property speaks about. The only shim (pulser-core 1.9.1, see harness/compat.py): the (k,N,N)
     interaction tensor of every `SequenceData` yielded by the real `get_sequences` is reduced to its
@@ -492,8 +547,11 @@ def sequence_real(backend: str, bases: str, nmspec: dict, solver: str, dev_noise
     import dataclasses
     import emu_base.pulser_adapter as pa
     import emu_mps.mps_backend_impl as mbi
-    cfg = build_config(dict(backend=backend, solver=solver, noise=nmspec, prefer=prefer))
-    seq = pulser_sequence(bases, dev_noise=dev_noise)
+    cfg = build_config(dict(backend=backend, solver=solver, noise=nmspec, prefer=prefer, solver_form=solver_form))
+    try:
+        seq = pulser_sequence(bases, dev_noise=dev_noise, pulsed=pulsed)
+    except Exception:
+        return "pulser-refused", None, None, cfg, {}
     basis, captured, info = [], [], {}
     real_gs, real_fs = pa.PulserData.get_sequences, pa.HamiltonianData.from_sequence
 
